@@ -65,6 +65,7 @@ type Config struct {
 	WeightMode  int    `json:"weight_mode"`
 	Keys        int    `json:"keys"`
 	WBase       uint64 `json:"w_base"` // the weigher is built around this value (the source's maximum)
+	Queued      bool   `json:"queued_executor,omitempty"` // the executor only queues; tasks run when the case says so
 }
 
 func (c *Config) WithExp() bool  { return c.ExpKind != ExpNone }
